@@ -1,4 +1,5 @@
 import LyModel.YangStr.LemmasTree
+import LyModel.YangStr.LemmasKw
 /-!
 # C10 — printed schemas re-parse to the same module: the string side
 
@@ -10,8 +11,11 @@ switches, `is_yangutf8char`, `Y_TAB_SPACES` and the keyword trie are regenerated
 `isYangText s`: the byte strings the lexer itself accepts character by character, i.e. exactly what an argument of a
 parsed module can hold.  After the closing quote come `k` blanks and `rest`, where `RestOk rest` says that `rest` does
 not start with `optsep` or `+` (the printers continue with `;` or ` {`, i.e. `k = 0` or `1`): the lexer skips the blanks
-and stops in front of `rest`.  `ind` is `ctx->indent`, the lexer's own column counter, after the keyword: it is never smaller
-than the true column (it over-counts after `lysp_match_kw` backs out), hence the hypothesis is an inequality.
+and stops in front of `rest`.  `ind` is `ctx->indent`, the lexer's own column counter, after the keyword.  In a single-line
+statement it must EQUAL the true column (hypothesis `hind` of `yang_text_roundtrip_partial`, an equation: with an over-counted
+column — `lysp_match_kw` over-counts when it backs out — the lexer strips more blanks from continuation lines than the printer
+wrote).  That the lexer is in that state after every keyword of the trie is `kwAt_of_yangKwTrie`; `yang_text_roundtrip_keyword`
+runs `get_keyword` and `get_argument` in sequence over the whole of what `ypr_text` printed.
 -/
 namespace LyModel.Props.C10
 open LyModel LyModel.YangStr LyModel.Generated
@@ -60,26 +64,24 @@ def TextOk (flags : Nat) (s : Bytes) : Prop :=
 instance (flags : Nat) (s : Bytes) : Decidable (TextOk flags s) := by
   unfold TextOk; exact inferInstance
 
--- AUDIT: `printText_eq` is a definitional unfolding (`rfl`); it has no content of its own, it only fixes how the statements
--- below relate to `ypr_text`.  It is (rightly) not listed in `Audit/C10.lean`.
-/-- `ypr_text l flags name s` is `indent ++ name ++ printTextArg …` (by definition of the model): the theorems below
-    are about the part after the name, read by `get_argument` with the lexer's column counter after the keyword. -/
+-- AUDIT (resolved): the docstring of `printText_eq` says that it is a definitional unfolding without content of its own.
+/-- `ypr_text l flags name s` is `indent ++ name ++ printTextArg …`.  This is a DEFINITIONAL UNFOLDING of the model (`rfl`): it has no
+    content of its own and is not a property theorem (it is, rightly, not listed in `Audit/C10.lean`); it only fixes how the
+    statements below are read — they are about the part after the name (`printTextArg`), read by `get_argument` with the lexer's
+    column counter after the keyword.  The statement about the whole of `printText`, keyword included, is
+    `yang_text_roundtrip_keyword`. -/
 theorem printText_eq (fmt : Bool) (level flags : Nat) (name s : Bytes) :
     printText fmt level flags name s = indentOf fmt level ++ name ++ printTextArg fmt level flags name.length s := rfl
 
--- AUDIT (no vacuity; an unproved side claim): `hind` is an *equation* (the file header still says "inequality": stale — with an
--- over-counted column the lexer strips more blanks from continuation lines than the printer wrote, so `≥` would not do).
--- It is an assumption about the lexer's state after the keyword.  That the lexer really is in that state "for every YANG
--- keyword" is stated in prose only: `KwOk` yields `∃ ind'`, not `ind' = ind + kw.length`, and no theorem runs `get_keyword`
--- over `indent ++ name` in front of `printTextArg`.  The audit example after the witnesses below checks it on one
--- representative statement (`default`, level 1, multi-line text) by running `getKeyword` and `getArgument` in sequence.
--- Minimal repair: a lemma `kwAt ind d (kw ++ 32 :: r) = .ok { tok := .kw, word := kw, ind := ind + kw.length, … }` for
--- every keyword of `yangKwTrie` (finite, one `simp` per keyword as in `kwok_type`), composed with this theorem.
+-- AUDIT (resolved): `hind` is an equation about the lexer's state after the keyword; that state is proved for every keyword of
+-- `yangKwTrie` (`kwAt_of_yangKwTrie`) and composed with this theorem in `yang_text_roundtrip_keyword` (both below the F82 theorems).
 /-- **Round trip of `ypr_text`** (after the repair of F5, F35 and F83).  For every formatting mode, indentation level,
-    flag set, statement name and valid text `s` — without CR if it is printed in double quotes —, `get_argument` applied
-    to what `ypr_text` printed after the statement name returns exactly `s`, with the quoting style the printer chose,
-    and stops in front of the rest of the input.  In a single-line statement the lexer's column counter after the
-    keyword must be the true column (it is, for every YANG keyword). -/
+    flag set, length of the statement name and valid text `s` — without CR if it is printed in double quotes —, `get_argument`
+    applied to what `ypr_text` printed after the statement name returns exactly `s`, with the quoting style the printer chose,
+    and stops in front of the rest of the input.  `hind` is an ASSUMPTION about the lexer's state after the keyword: in a
+    single-line statement its column counter `ind` must equal the true column, indentation + name length (an equation; `≥` would
+    not do).  This theorem does not run `get_keyword`; that the assumption holds for every keyword of the trie is
+    `kwAt_of_yangKwTrie`, and `yang_text_roundtrip_keyword` is the composition without the assumption. -/
 theorem yang_text_roundtrip_partial (fmt : Bool) (level flags nameLen ind k : Nat) (s rest : Bytes)
     (hs : isYangText s = true) (hok : TextOk flags s)
     (hind : flagSingleLine flags = true → ind = (indentOf fmt level).length + nameLen) (hr : RestOk rest) :
@@ -131,10 +133,10 @@ example : ∃ ind', getArgument false 3 (printTextArg false 40 0 11 [97, 32, 10,
     .ok { word := some [97, 32, 10, 32, 98, 9], flags := LYS_DOUBLEQUOTED, ind := ind', rest := [123] } :=
   yang_text_roundtrip_partial false 40 0 11 3 1 _ [123] (by decide) (by decide) (by decide) (by decide)
 
--- AUDIT (naming only): the theorem below refutes the statement its docstring describes (the round trip without the no-CR
--- hypothesis, finding F82), but it is *named* `…_fails_F50`; F50 is an unrelated finding (an XPath out-parameter leak,
--- property C05).  The name is referenced by `evidence/C10.json`, so it is kept; `yang_text_roundtrip_fails_F82` is an alias.
-/-- F82 remains: a CR in a double-quoted text: the lexer rejects its own printer's output. -/
+-- AUDIT (resolved, naming only): `…_fails_F50` is about finding F82 (the name is referenced by `evidence/C10.json` and kept); alias `…_fails_F82`.
+/-- F82 remains: a CR in a double-quoted text: the lexer rejects its own printer's output — the round trip without the no-CR
+    hypothesis is false.  (The name says F50 for historical reasons — F50 is an unrelated finding, an XPath out-parameter leak of
+    property C05; the same statement under the right number is `yang_text_roundtrip_fails_F82`.) -/
 theorem yang_text_roundtrip_fails_F50 :
     ¬ ∀ (fmt : Bool) (level flags nameLen ind : Nat) (s rest : Bytes), isYangText s = true →
       flagSingleQuoted flags = false → (flagSingleLine flags = true → ind = (indentOf fmt level).length + nameLen) → RestOk rest →
@@ -146,7 +148,7 @@ theorem yang_text_roundtrip_fails_F50 :
   rw [this] at e
   simp at e
 
-/-- AUDIT: alias under the number of the finding the statement is about -/
+/-- `yang_text_roundtrip_fails_F50` under the number of the finding the statement is about (F82: CR in a double-quoted text) -/
 theorem yang_text_roundtrip_fails_F82 :
     ¬ ∀ (fmt : Bool) (level flags nameLen ind : Nat) (s rest : Bytes), isYangText s = true →
       flagSingleQuoted flags = false → (flagSingleLine flags = true → ind = (indentOf fmt level).length + nameLen) → RestOk rest →
@@ -154,30 +156,129 @@ theorem yang_text_roundtrip_fails_F82 :
         .ok { word := some s, flags := quoteFlag flags, ind := ind', rest := rest } :=
   yang_text_roundtrip_fails_F50
 
+/-! ## `get_keyword` on the keywords of the trie, and the whole of `ypr_text` -/
+
+/-- **Every keyword of the generated trie `yangKwTrie` lexes as itself, with the exact column** (`yangKeywords`: the 68 words the
+    `IF_KW` / `IF_KW_PREFIX` alternatives of `lysp_match_kw` spell).  Followed by a blank or a newline, at every column `ind`, every
+    depth and whatever stands behind the separator, `get_keyword` (from `keyword_start:` on) returns the keyword as a keyword token,
+    leaves the separator in the input and has advanced `ctx->indent` by exactly the length of the keyword — the state that
+    hypothesis `hind` of `yang_text_roundtrip_partial` assumes.  (Proof: the walk looks at one byte behind the keyword only,
+    `walkAlts_sep`; the rest is an evaluation per keyword, `yangKeywords_check`.) -/
+theorem kwAt_of_yangKwTrie (kw : Bytes) (hkw : kw ∈ yangKeywords) (ind depth : Nat) (sep : UInt8) (r : Bytes)
+    (hsep : sep = 32 ∨ sep = 10) :
+    kwAt ind depth (kw ++ sep :: r) =
+      .ok { tok := .kw, word := kw, ind := ind + kw.length, depth := depth, rest := sep :: r } :=
+  kwAt_yangKeyword kw hkw ind depth sep r hsep
+
+/-- non-vacuity: the list is the keyword list of the trie — 68 words, among them one that is a prefix of another (`leaf` /
+    `leaf-list`, `type` / `typedef`, `revision` / `revision-date`) and the ones with hyphens -/
+example : yangKeywords.length = 68 ∧ ∀ kw ∈ ([
+    [108, 101, 97, 102] /- leaf -/,
+    [108, 101, 97, 102, 45, 108, 105, 115, 116] /- leaf-list -/,
+    [116, 121, 112, 101] /- type -/,
+    [116, 121, 112, 101, 100, 101, 102] /- typedef -/,
+    [114, 101, 118, 105, 115, 105, 111, 110] /- revision -/,
+    [114, 101, 118, 105, 115, 105, 111, 110, 45, 100, 97, 116, 101] /- revision-date -/,
+    [121, 105, 110, 45, 101, 108, 101, 109, 101, 110, 116] /- yin-element -/,
+    [101, 114, 114, 111, 114, 45, 97, 112, 112, 45, 116, 97, 103] /- error-app-tag -/,
+    [97, 110, 121, 120, 109, 108] /- anyxml -/,
+    [99, 111, 110, 116, 97, 105, 110, 101, 114] /- container -/,
+    [105, 110, 112, 117, 116] /- input -/,
+    [111, 117, 116, 112, 117, 116] /- output -/,
+    [100, 101, 115, 99, 114, 105, 112, 116, 105, 111, 110] /- description -/] : List Bytes),
+    kw ∈ yangKeywords := by decide
+
+/-- non-vacuity: `leaf` at column 4, depth 2, followed by ` x;` and by a newline -/
+example : kwAt 4 2 ([108, 101, 97, 102] ++ 32 :: [120, 59]) =
+      .ok { tok := .kw, word := [108, 101, 97, 102], ind := 8, depth := 2, rest := [32, 120, 59] } ∧
+    kwAt 4 2 ([108, 101, 97, 102] ++ 10 :: []) = .ok { tok := .kw, word := [108, 101, 97, 102], ind := 8, depth := 2, rest := [10] } :=
+  ⟨kwAt_of_yangKwTrie _ (by decide) 4 2 32 _ (Or.inl rfl), kwAt_of_yangKwTrie _ (by decide) 4 2 10 _ (Or.inr rfl)⟩
+
+/-- **`KwOk` holds for every keyword of the generated trie** — the side condition `WfStmts` puts on the keyword of each statement
+    ("the keyword token lexes as itself when a blank or a newline follows", at every column, depth and continuation) is met by
+    all 68 YANG keywords, not only by the ones of the witnesses below. -/
+theorem kwOk_of_yangKwTrie (kw : Bytes) (hkw : kw ∈ yangKeywords) : KwOk kw :=
+  ⟨startChar_of_yangKeyword kw hkw, fun ind depth sep r hsep =>
+    ⟨Tok.kw, ind + kw.length, by decide, kwAt_yangKeyword kw hkw ind depth sep r hsep⟩⟩
+
+/-- **`KwBareOk` for `input` and `output`**, the two YANG statements without an argument (the only keywords the printer can write
+    with `;` directly behind them and `get_keyword` accepts there) -/
+theorem kwBareOk_input_output : KwBareOk kwInput ∧ KwBareOk kwOutput :=
+  ⟨fun ind depth r => ⟨Tok.kw, ind + kwInput.length, by decide, kwAt_bare_input_output kwInput (Or.inl rfl) ind depth r⟩,
+   fun ind depth r => ⟨Tok.kw, ind + kwOutput.length, by decide, kwAt_bare_input_output kwOutput (Or.inr rfl) ind depth r⟩⟩
+
+/-- non-vacuity: `KwOk` at two keywords the witnesses below do not use, and the bare form of `input` evaluated -/
+example : KwOk [108, 101, 97, 102, 45, 108, 105, 115, 116] /- leaf-list -/ ∧ KwOk [114, 101, 113, 117, 105, 114, 101, 45, 105, 110, 115, 116, 97, 110, 99, 101] /- require-instance -/ ∧
+    kwAt 2 1 (kwInput ++ 59 :: [10]) = .ok { tok := .kw, word := kwInput, ind := 7, depth := 1, rest := [59, 10] } :=
+  ⟨kwOk_of_yangKwTrie _ (by decide), kwOk_of_yangKwTrie _ (by decide), rfl⟩
+
+/-- **Round trip of the whole of `ypr_text`, keyword included** (`yang_text_roundtrip_partial` without its assumption `hind`).
+    For every keyword `name` of the trie, every formatting mode, indentation level, flag set and valid text `s` — without CR if
+    it is printed in double quotes —: `get_keyword`, started at column 0 of the line `ypr_text` printed (any depth), returns the
+    keyword `name`, and `get_argument`, continued from the state `get_keyword` left (its column counter, its rest of the input),
+    returns exactly `s` with the quoting style the printer chose and stops in front of the rest of the input. -/
+theorem yang_text_roundtrip_keyword (fmt : Bool) (level flags depth k : Nat) (name s rest : Bytes)
+    (hname : name ∈ yangKeywords) (hs : isYangText s = true) (hok : TextOk flags s) (hr : RestOk rest) :
+    ∃ kres ind', getKeyword 0 depth (printText fmt level flags name s ++ (spaces k ++ rest)) = .ok kres ∧
+      kres.tok = Tok.kw ∧ kres.word = name ∧ kres.depth = depth ∧
+      getArgument false kres.ind kres.rest = .ok { word := some s, flags := quoteFlag flags, ind := ind', rest := rest } := by
+  obtain ⟨c, w, rfl, hc⟩ := startChar_of_yangKeyword name hname
+  obtain ⟨sep, tl, hsep, harg⟩ : ∃ sep tl, (sep = 32 ∨ sep = 10) ∧
+      printTextArg fmt level flags (c :: w).length s = sep :: tl := by
+    unfold printTextArg
+    dsimp only
+    split
+    · exact ⟨32, _, Or.inl rfl, rfl⟩
+    · exact ⟨10, _, Or.inr rfl, rfl⟩
+  obtain ⟨ind', harg2⟩ := yang_text_roundtrip_partial fmt level flags (c :: w).length
+    ((indentOf fmt level).length + (c :: w).length) k s rest hs hok (fun _ => rfl) hr
+  have hin : printText fmt level flags (c :: w) s ++ (spaces k ++ rest) =
+      spaces (if fmt then 2 * level else 0) ++ c :: (w ++ sep :: (tl ++ (spaces k ++ rest))) := by
+    simp only [printText, indentOf, harg, List.append_assoc, List.cons_append]
+  have hkw := kwAt_yangKeyword (c :: w) hname (0 + (if fmt then 2 * level else 0)) depth sep (tl ++ (spaces k ++ rest)) hsep
+  rw [List.cons_append] at hkw
+  refine ⟨_, ind', (by rw [hin, getKeyword_spaces 0 depth _ c _ hc, hkw]), rfl, rfl, rfl, ?_⟩
+  show getArgument false (0 + (if fmt then 2 * level else 0) + (c :: w).length) (sep :: (tl ++ (spaces k ++ rest))) = _
+  rw [← List.cons_append, ← harg]
+  have e : 0 + (if fmt then 2 * level else 0) + (c :: w).length = (indentOf fmt level).length + (c :: w).length := by
+    simp only [indentOf, spaces_length, Nat.zero_add]
+  rw [e]
+  exact harg2
+
+/-- non-vacuity: the former F35 witness with its keyword — `  default "a<LF>  b";` (level 1, single-line flag) — and a block-style
+    `description` at level 2 followed by ` {` -/
+example : ∃ kres ind', getKeyword 0 1 (printText true 1 1 [100, 101, 102, 97, 117, 108, 116] /- default -/ [97, 10, 32, 32, 98] ++ (spaces 0 ++ [59])) = .ok kres ∧
+    kres.tok = Tok.kw ∧ kres.word = [100, 101, 102, 97, 117, 108, 116] /- default -/ ∧ kres.depth = 1 ∧
+    getArgument false kres.ind kres.rest = .ok { word := some [97, 10, 32, 32, 98], flags := quoteFlag 1, ind := ind', rest := [59] } :=
+  yang_text_roundtrip_keyword true 1 1 1 0 _ _ [59] (by decide) (by decide) (by decide) (by decide)
+example : ∃ kres ind', getKeyword 0 3 (printText true 2 0 [100, 101, 115, 99, 114, 105, 112, 116, 105, 111, 110] /- description -/ [97, 34, 32, 10, 98, 9] ++ (spaces 1 ++ [123])) = .ok kres ∧
+    kres.tok = Tok.kw ∧ kres.word = [100, 101, 115, 99, 114, 105, 112, 116, 105, 111, 110] /- description -/ ∧ kres.depth = 3 ∧
+    getArgument false kres.ind kres.rest = .ok { word := some [97, 34, 32, 10, 98, 9], flags := quoteFlag 0, ind := ind', rest := [123] } :=
+  yang_text_roundtrip_keyword true 2 0 3 1 _ _ [123] (by decide) (by decide) (by decide) (by decide)
+
 /-! ## `yprp_stmt` ↔ `parse_ext_substmt`: generic statement trees
 
 `WfStmts ss` (LemmasTree): every keyword lexes as itself (`KwOk`, and `KwBareOk` where `;` follows it directly: a
 YANG keyword without argument must be `input`/`output`, the printer writes `leaf;` and `get_keyword` wants a separator
 after `leaf`); every argument is absent, or unquoted and able to stand without quotes (`UnquotedOk`), or double-quoted
-without CR (F82), or single-quoted. -/
+without CR (F82), or single-quoted.
 
--- AUDIT: `WfStmts` bundles, per statement, the structure `KwOk kw` whose field `lex` quantifies over every column, depth
--- and continuation.  It is satisfiable (proved below for `type`, `units` and `e:x`; the witnesses use all three), so the
--- three theorems are not vacuous.  Two limits of what they cover, neither stated in their docstrings:
---  (1) "holds for every YANG keyword" (docstring of `KwOk`) is prose; only the keywords of the witnesses are proved.
---  (2) `KwOk` is FALSE for an extension keyword whose prefix is a YANG keyword followed by `-`, `_` or `.` (`type-x:y`,
---      `key-chain:…`, `list_a:…`): `lysp_match_kw` matches `type`, sees a non-alphanumeric byte and does not back out, and
---      `get_keyword` then refuses the `-` ("expected a keyword followed by a separator").  So for such statements the
---      theorems say nothing — `stmt_tree_roundtrip_vacuous_for_keywordlike_prefix` — and the round trip in fact fails:
---      the printed statement is rejected by the lexer (example there).  Checked on the C code as well (yanglint on a
---      module with `import e { prefix type-x; } type-x:x "arg";` → "Invalid character sequence "type-", expected a keyword
---      followed by a separator"), although `type-x` is a legal prefix (RFC 7950 §7.1.4: an identifier).  This looks like a
---      defect of the parser that is not in `known_findings.json`; decision needed: record it as a finding and state the
---      exclusion in the docstrings / MANIFEST text.  The statement of the theorems needs no repair (the hypothesis is the
---      right one for the code as it is).
+`KwOk kw` is a structure whose field `lex` quantifies over every column, depth and continuation; it is an ASSUMPTION of the three
+theorems, per statement.  What is proved about it: it holds for every keyword of the generated trie (`kwOk_of_yangKwTrie`, all
+68 YANG keywords; `kwBareOk_input_output` for the two that may stand bare) and for the extension keyword `e:x` of the
+witnesses (`kwok_ex`, `kwbare_ex`).  For extension keywords `prefix:name` in general it is NOT proved (only evaluated: `e:x`, and
+`type-x:y` after the `fix:` for F105 — before that fix it was false for a prefix that starts with a YANG keyword followed by `-`,
+`_` or `.`), so for statement trees with other extension instances the theorems hold under a hypothesis that is not discharged here.
+-- OPEN: `KwOk kw` (and `KwBareOk kw`) for every `kw = p ++ 58 :: n` with `p`, `n` YANG identifiers
+-- (`isIdentStart` first byte, `isIdentChar` the others): needs `extLoop` over an arbitrary identifier after `matchKw` has
+-- matched, backed out of, or not found a keyword at the start of `p`. -/
+
+-- AUDIT (resolved): (1) `KwOk` is proved for every keyword of `yangKwTrie` (`kwOk_of_yangKwTrie`); (2) the keyword-like prefix (`type-x:y`) was finding F105, fixed (examples below); the section header says what `WfStmts` assumes.
 /-- The statements `ss` (with all their substatements) printed by `yprp_stmt` at any level inside a block, read by the
     substatement loop of `parse_ext_substmt` with enough fuel, come back as exactly `ss` — keywords, arguments, quoting
-    flags and tree shape — and the loop stops behind the closing brace. -/
+    flags and tree shape — and the loop stops behind the closing brace.  Hypothesis `WfStmts ss` assumes, for the keyword of
+    every statement, that it lexes as itself (`KwOk`; proved for every YANG keyword, `kwOk_of_yangKwTrie`, assumed for extension
+    keywords other than the witnesses' — see the section header), and restricts the arguments as described there. -/
 theorem stmt_tree_roundtrip (fmt : Bool) (l ind depth n f : Nat) (ss : List Stmt) (rest : Bytes)
     (hwf : WfStmts ss) (hd : 0 < depth) (hh : depth + heightL ss ≤ 500) (hf : needL ss ≤ f) :
     ∃ ind', parseStmt.parseChildren f ind depth (10 :: (printStmts fmt l ss ++ (spaces n ++ 125 :: rest))) =
@@ -267,6 +368,29 @@ example : ∃ ind', parseStmt.parseChildren 10 4 1 (10 :: (printStmts true 1 exa
 example : ∃ ind', parseStmt.parseChildren ((10 :: (printStmts true 1 exampleTree ++ (spaces 0 ++ 125 :: [10]))).length + 1) 4 1
     (10 :: (printStmts true 1 exampleTree ++ (spaces 0 ++ 125 :: [10]))) = .ok (exampleTree, ind', 0, [10]) :=
   stmt_tree_roundtrip_input_fuel true 1 4 1 0 exampleTree [10] exampleTree_wf (by decide) (by decide)
+
+/-- `container c { leaf-list x { type string; description "a<LF>b"; } input; }` — keywords of the trie only (the generic parser does
+    not care which statement may stand where) -/
+def kwTree : List Stmt :=
+  [.mk [99, 111, 110, 116, 97, 105, 110, 101, 114] (some [99]) 0
+    [.mk [108, 101, 97, 102, 45, 108, 105, 115, 116] (some [120]) 0
+       [.mk [116, 121, 112, 101] (some [115, 116, 114, 105, 110, 103]) 0 [],
+        .mk [100, 101, 115, 99, 114, 105, 112, 116, 105, 111, 110] (some [97, 10, 98]) LYS_DOUBLEQUOTED []],
+     .mk kwInput none 0 []]]
+
+/-- non-vacuity of `kwOk_of_yangKwTrie` / `kwBareOk_input_output` as suppliers of `WfStmts`: every `KwOk` / `KwBareOk` obligation of
+    that tree is discharged by them (membership in the keyword list by evaluation) -/
+theorem kwTree_wf : WfStmts kwTree := by
+  have ua : ∀ a : Bytes, isYangText a = true → a ≠ [] → (∀ b ∈ a, PlainByte b) → NoCmt a → UnquotedOk a := fun a h1 h2 h3 h4 => ⟨h1, h2, h3, h4⟩
+  refine ⟨⟨kwOk_of_yangKwTrie _ (by decide), Or.inl ⟨rfl, ua _ (by decide) (by decide) (by decide) (by decide)⟩, ?_⟩, trivial⟩
+  refine ⟨⟨kwOk_of_yangKwTrie _ (by decide), Or.inl ⟨rfl, ua _ (by decide) (by decide) (by decide) (by decide)⟩, ?_⟩,
+    ⟨kwOk_of_yangKwTrie _ (by decide), ⟨rfl, fun _ => kwBareOk_input_output.1⟩, trivial⟩, trivial⟩
+  exact ⟨⟨kwOk_of_yangKwTrie _ (by decide), Or.inl ⟨rfl, ua _ (by decide) (by decide) (by decide) (by decide)⟩, trivial⟩,
+    ⟨kwOk_of_yangKwTrie _ (by decide), Or.inr (Or.inl ⟨rfl, by decide, by decide⟩), trivial⟩, trivial⟩
+
+example : ∃ ind', parseStmt.parseChildren 12 4 1 (10 :: (printStmts true 1 kwTree ++ (spaces 0 ++ 125 :: [10]))) =
+    .ok (kwTree, ind', 0, [10]) :=
+  stmt_tree_roundtrip true 1 4 1 0 12 kwTree [10] kwTree_wf (by decide) (by decide) (by decide)
 
 /-- the single statement of `exampleTree` -/
 def exampleStmt : Stmt :=
